@@ -110,6 +110,8 @@ def remap_uri_prefixes(converter: Converter, remapping: Mapping[str, str]) -> Co
     :raises TransitiveError: If there are any strings that appear in both the key and
         values of the remapping
     """
+    # work on plain strings: subclasses like rdflib.URIRef don't compare equal to the string they hold
+    remapping = {str(key): str(value) for key, value in remapping.items()}
     intersection = set(remapping).intersection(remapping.values())
     if intersection:
         raise TransitiveError(intersection)
@@ -146,6 +148,8 @@ def rewire(converter: Converter, rewiring: Mapping[str, str]) -> Converter:
 
     :returns: An upgraded converter
     """
+    # work on plain strings: subclasses like rdflib.URIRef don't compare equal to the string they hold
+    rewiring = {str(key): str(value) for key, value in rewiring.items()}
     records = []
     for record in converter.records:
         record = record.model_copy(deep=True)
